@@ -67,9 +67,11 @@ def reference_cycle(ast):
     return any(color.get(n) is None and dfs(n) for n in list(graph))
 
 
-def classify_crash(ctx, what, info, rules_text=None):
+def classify_crash(ctx, what, info, rules_text=None, certified=False):
     cls = 'crash'
-    if rules_text is not None:
+    if certified:
+        what += ' [the program is stratified: Strat.terminates_within certifies a fuel bound, C08_terminates_within_sound]'
+    if rules_text is not None and not certified:
         r = impl.run_ops([{'op': 'ast', 'rules': rules_text}], ctx.wd, 'c08ast')[0]
         a = r.get('res')
         if a and a[0] == 'Ok' and reference_cycle(a[1]):
@@ -96,11 +98,32 @@ def model_correspondence(ctx, n):
                 'let up = to_upper(l)\nlet pi = parse_int(m)\nrule fx6 {\n  %up !exists or\n  %pi !exists\n}\n',
             ])
         pairs.append({'rules': text, 'data': json.dumps(doc)})
-    out, errs = corr.run(pairs, ctx.wd, 'c08corr', loader='cli')
+    # every case also runs the proven termination test on the AST the implementation parsed: `Some w` = the program is
+    # stratified and fuel w is enough for every document (TermProps.terminates_within_sound), `None` = not certified
+    out, errs = corr.run(pairs, ctx.wd, 'c08corr', loader='cli', expr='({check}, terminates_within p{i} 12)',
+                         header='From GV.Model Require Import Check Strat.\n')
     if errs:
         raise ToolingError('model evaluation failed: %r' % (errs[:1],))
     stats = {}
+    strat = {'certified': 0, 'not_certified': 0, 'max_bound': 0, 'certified_but_python_sees_a_cycle': 0, 'uncertified_without_python_cycle': 0}
     for o, p in zip(out, pairs):
+        cert = None
+        if o['kind'] == 'compared':
+            m = re.match(r'\((.*), (Some (\d+)%nat|None)\)$', o['verdict'])
+            if not m:
+                raise ToolingError('unexpected case output %r' % o['verdict'][:200])
+            o['verdict'] = m.group(1)
+            cert = int(m.group(3)) if m.group(3) else None
+            o['certified'] = cert
+            pyc = reference_cycle(o['ast'])
+            if cert is not None:
+                strat['certified'] += 1; strat['max_bound'] = max(strat['max_bound'], cert)
+                strat['certified_but_python_sees_a_cycle'] += int(pyc)
+                if o['verdict'] in ('VAgreeNonTerm', 'VModelOOF') and cert <= corr.FUEL:
+                    raise ToolingError('the model ran out of fuel %d on a program certified for fuel %d: impossible by C08_terminates_within_sound' % (corr.FUEL, cert))
+            else:
+                strat['not_certified'] += 1
+                strat['uncertified_without_python_cycle'] += int(not pyc)
         key = o['kind'] if o['kind'] != 'compared' else o['verdict']
         stats[key] = stats.get(key, 0) + 1
         if o['kind'] == 'died_unparsed':
@@ -110,10 +133,12 @@ def model_correspondence(ctx, n):
             continue
         v = o['verdict']
         if v in ('VAgreePanic', 'VAgreeNonTerm') or 'panic' in str(o.get('impl')) or o.get('impl') == 'abort':
-            classify_crash(ctx, 'evaluation crashes (%s; model: %s)' % (o.get('impl'), v), {'rules': p['rules'], 'data': p['data'], 'impl': o.get('impl'), 'model': v}, p['rules'])
+            classify_crash(ctx, 'evaluation crashes (%s; model: %s)' % (o.get('impl'), v), {'rules': p['rules'], 'data': p['data'], 'impl': o.get('impl'), 'model': v}, p['rules'],
+                           certified=(o.get('certified') is not None and o.get('impl') == 'abort'))
         elif re.search(r'VDis|VModelOOF|NoModelOutput', v):
             ctx.failing('model and implementation disagree on a generated program (%s)' % v,
                         {'class': 'eval-correspondence', 'verdict': v, 'rules': p['rules'], 'data': p['data']}, found=False)
+    ctx.coverage['stratification'] = strat
     ctx.coverage['correspondence_verdicts'] = stats
     ctx.coverage['evaluations'] += len(pairs)
     return len(pairs)
